@@ -48,6 +48,30 @@ pub struct QueueCase {
     pub ops: Vec<QOp>,
 }
 
+/// The public ways of wrapping a sink in a `QueuingMetricSink` with an unbounded (or
+/// practically unbounded) queue; they must all behave alike. `variant` selects one.
+pub fn build_queuing<S>(sink: S, variant: u64) -> cadence::QueuingMetricSink
+where
+    S: cadence::MetricSink + Sync + Send + std::panic::RefUnwindSafe + 'static,
+{
+    use cadence::QueuingMetricSink;
+    match variant % 5 {
+        0 => QueuingMetricSink::from(sink),
+        1 => QueuingMetricSink::builder().build(sink),
+        2 => QueuingMetricSink::builder().with_error_handler(|_e| {}).build(sink),
+        3 => QueuingMetricSink::builder().with_capacity(1 << 20).with_error_handler(|_e| {}).build(sink),
+        _ => QueuingMetricSink::with_capacity(sink, 1 << 20),
+    }
+}
+
+pub const QUEUING_VARIANTS: [&str; 5] = [
+    "QueuingMetricSink::from",
+    "builder().build",
+    "builder().with_error_handler().build",
+    "builder().with_capacity().with_error_handler().build",
+    "QueuingMetricSink::with_capacity",
+];
+
 #[derive(Clone, Copy, Debug, PartialEq, Eq, Hash)]
 pub enum QRule {
     /// C08
@@ -570,6 +594,10 @@ pub fn run_case_focus(case: &QueueCase, ctx: &Ctx, focus: Option<QRule>) -> Run 
                                     // "... and the sink keeps accepting metrics" (C11)
                                     rules.push(QRule::Panics);
                                 }
+                                if st.errors > 0 && !case.handler {
+                                    // "without a handler the error is discarded and later metrics are delivered as usual" (C16)
+                                    rules.push(QRule::Handler);
+                                }
                                 find!(
                                     rules,
                                     oi,
@@ -831,7 +859,7 @@ pub fn run_case_focus(case: &QueueCase, ctx: &Ctx, focus: Option<QRule>) -> Run 
                                 }
                             }
                         }
-                        StepOut::Ok | StepOut::OkZero => {
+                        StepOut::Ok | StepOut::OkZero | StepOut::OkShort => {
                             last_step_panic = false;
                             if last_err_then_ok == 1 {
                                 last_err_then_ok = 2;
@@ -920,8 +948,9 @@ pub fn run_case_focus(case: &QueueCase, ctx: &Ctx, focus: Option<QRule>) -> Run 
 
 fn step_out(err_w: u32, panic_w: u32) -> impl Strategy<Value = StepOut> {
     prop_oneof![
-        5 => Just(StepOut::Ok),
+        4 => Just(StepOut::Ok),
         1 => Just(StepOut::OkZero),
+        1 => Just(StepOut::OkShort),
         err_w => (0u8..13).prop_map(StepOut::Err),
         panic_w => Just(StepOut::Panic),
     ]
